@@ -148,12 +148,15 @@ def coq_sources():
         return [ln.strip() for ln in fh if ln.strip().endswith(".v")]
 
 
+def extract_sources():
+    with open(os.path.join(VERIF, "runner", "models.txt")) as fh:
+        return [os.path.join("Extract", ln.strip().split(":")[1]) for ln in fh if ln.strip()]
+
+
 def audit_sources(files=None):
     """grep for forbidden vernacular outside comments in the whole development."""
     bad = []
-    for rel in files or coq_sources() + [
-            os.path.join("Extract", f) for f in os.listdir(os.path.join(COQ, "Extract"))
-            if f.endswith(".v")]:
+    for rel in files or coq_sources() + extract_sources():
         with open(os.path.join(COQ, rel)) as fh:
             src = strip_coq_comments(fh.read())
         for m in FORBIDDEN.finditer(src):
@@ -173,6 +176,7 @@ def audit_sources(files=None):
 
 def coq_build(targets, jobs=8, timeout=3000):
     """Full .vo build (never -vos) of the given targets.  Returns (ok, log)."""
+    subprocess.run([os.path.join(VERIF, "tools", "gen_coqproject.sh")], check=True)
     mk = os.path.join(COQ, "Makefile")
     if (not os.path.exists(mk)
             or os.path.getmtime(mk) < os.path.getmtime(os.path.join(COQ, "_CoqProject"))):
